@@ -1645,6 +1645,19 @@ fn gen_text(rng: &mut Rng, k: &GenKnobs) -> Vec<u8> {
     // (U+0100, U+0400, U+3000, U+4E00, U+1F600), combining marks, BOM
     const WIDE: [&str; 14] =
         ["é", "ü", "ß", "Ā", "Ѐ", "✓", "ダ", "一", "\u{3000}", "😀", "🚀", "\u{301}", "\u{feff}", "\u{7f}"];
+    // now and then a string a boot loader really passes (a maintainer's
+    // special cases are about these: leading dashes, spaces, '=' and ',', paths)
+    const REAL: [&str; 16] = [
+        "quiet", "root=/dev/sda1 ro", "GRUB 2.06", "--", "-s", "a=b", " ", "\t", "initrd.img", "/boot/kernel",
+        "console=ttyS0,115200n8", "  leading", "trailing  ", "multiboot2", "a b  c", "\"quoted arg\"",
+    ];
+    if rng.chance(1, 12) {
+        let mut s = rng.pick(&REAL).as_bytes().to_vec();
+        if rng.chance(1, 4) {
+            s.push(0);
+        }
+        return s;
+    }
     let len = gen_len(rng, k.max_len);
     let mut s = Vec::with_capacity(len + 8);
     let style = rng.below(8);
